@@ -12,7 +12,8 @@ MANIFEST = {
             "|H|=1 for every D, exact energy conservation of DM, DM(-D)∘DM(D)=id, DM(D1)∘DM(D2)=DM(D1+D2), "
             "FIBER(L,beta2)=DM(beta2*L) including the unit conversions translated from the source (1e-12, 1e-24), two spans = one "
             "span of the summed length, output energy = exp(-alpha*L/kappa) * input energy per row for any beta2/beta3, retH = "
-            "fftshift of the applied response, length/rows preserved.  Tie: constants translated from devices.py on every run; the "
+            "fftshift of the applied response, length/rows preserved, superposition in the field, an unlit polarisation stays exactly dark.  "
+            "Tie: constants translated from devices.py on every run; the "
             "same definitions executed at Float against DM()/FIBER() (tolerance 1e-9*scale*n).",
     "note": "numpy FFT trusted to be the DFT; proofs over R/C (no rounding); only .signal is demanded to be filtered (the code passes "
             ".noise through); the code's 4.343 differs from 10/ln10 by 1.3e-5 relative, so the oracle checks the 10^(-alpha L/10) "
